@@ -311,6 +311,9 @@ class BehavioralRTLIRTypeCheckVisitorL2( BehavioralRTLIRTypeCheckVisitorL1 ):
         node._value = eval(f"{op}{operand}")
       except:
         pass
+      # -200 and ~200 need more bits than 200
+      if not node._is_explicit and type( getattr( node, '_value', None ) ) is int:
+        node.Type = s.rtlir_getter.get_rtlir( node._value )
 
   # def visit_BoolOp( s, node ):
   #   max_nbits = -1
@@ -349,6 +352,10 @@ class BehavioralRTLIRTypeCheckVisitorL2( BehavioralRTLIRTypeCheckVisitorL1 ):
           raise PyMTLTypeError( s.blk, node.ast,
               f"The explicitly sized side of operation has {explicit} bits but "
               f"the integer literal requires more bits ({implicit})!" )
+        if getattr( op, '_value', 0 ) < 0:
+          raise PyMTLTypeError( s.blk, node.ast,
+              f"A negative integer ({op._value}) cannot be an operand of an "
+              f"operation with an explicitly sized value!" )
         s.enforcer.enter( s.blk, context, op )
 
       elif not l_explicit and not r_explicit:
@@ -429,6 +436,10 @@ class BehavioralRTLIRTypeCheckVisitorL2( BehavioralRTLIRTypeCheckVisitorL1 ):
         raise PyMTLTypeError( s.blk, node.ast,
             f"The explicitly sized side of comparison has {explicit} bits but "
             f"the integer literal requires more bits ({implicit}) to hold!" )
+      if getattr( op, '_value', 0 ) < 0:
+        raise PyMTLTypeError( s.blk, node.ast,
+            f"A negative integer ({op._value}) cannot be compared with an "
+            f"explicitly sized value!" )
       s.enforcer.enter( s.blk, context, op )
 
     node.Type = rt.NetWire( rdt.Bool() )
